@@ -202,7 +202,7 @@ class CaseSet:
         rb = rule.encode('utf-8') if isinstance(rule, str) else rule
         meta.setdefault('rule', rb)
         meta.setdefault('ops', ops)
-        body = ' '.join('(p %s)' % val_sx(o[1]) if o[0] == 'p' else o[0] for o in ops)
+        body = ' '.join('(%s %s)' % (o[0], val_sx(o[1])) if o[0] in ('p', 'q') else o[0] for o in ops)
         return self._add('hist', '%s (%s)' % (hx(rb), body), fam, meta)
     def simple(self, kind, arg, fam, **meta):
         meta.setdefault('arg', arg)
@@ -221,7 +221,7 @@ def case_desc(c):
         return {'text': m['text'].decode('utf-8', 'replace'), 'family': c.fam}
     if c.kind == 'hist':
         return {'rule': m['rule'].decode('utf-8', 'replace'),
-                'ops': [('Process ' + val_desc(o[1])) if o[0] == 'p' else {'r': 'Reset', 'd': 'LastDebugErr'}[o[0]] for o in m['ops']],
+                'ops': [('Process ' + val_desc(o[1])) if o[0] == 'p' else ('Process (same map value, mutated in place to) ' + val_desc(o[1])) if o[0] == 'q' else {'r': 'Reset', 'd': 'LastDebugErr'}[o[0]] for o in m['ops']],
                 'family': c.fam}
     if c.kind == 'opcall':
         return {'call': '%sOperation.%s' % (m['optype'], m['op']), 'left': val_desc(m['left']), 'right': m['right'], 'family': c.fam}
